@@ -22,6 +22,7 @@ def build(chk):
     with chk.borrow("C10"):
         optics.c10_obligations(chk)
     chk.confirm_known("C11-negative-distance-orientation", "orientation", {"m": 0.8, "z": 100.0})
+    chk.confirm_known("C11-twostep-near-unit-magnification", "nearunit", None)
     chk.not_decided.append("reproduces the analytic Gaussian beam and the Airy pattern in the continuous limit: decided deductively only as 'each propagator is the discretised Fresnel integral on grids centred on the transform origin' (kernel-form obligations); the closed forms themselves are bounded native comparisons")
     chk.not_decided.append("numerical agreement between angular-spectrum and Fresnel propagators on coinciding grids (different discretisations; only orientation/kernel form is decided)")
     chk.not_decided.append("orientation for negative partial distances: listed finding C11-negative-distance-orientation (proved only for positive distances)")
